@@ -19,25 +19,30 @@ GAUSS_REL = {"C03": "marginal", "C04": "product", "C07": "conjugate"}
 
 
 def _fold_model_hook(tier):
-    """C02, Tier M: the folding / address-book mechanism model (FoldSys.tla) must refine the
-    unfolded semantics for the shortcut condition the code uses."""
+    """C02, Tier M: the mechanism models of folding / address book (FoldSys.tla) and of the layer
+    fusion pass (OptSys.tla) must refine the unfolded / unfused semantics for the conditions the
+    code uses."""
     from . import tlcrun  # pylint: disable=import-outside-toplevel
 
     def run_hook(rep):
-        cfg = "FoldSys_exact.cfg" if tier == "quick" else "FoldSys_exact5.cfg"
-        try:
-            _, stats = tlcrun.run_tlc("FoldSys.tla", cfg, "C02_foldsys", coverage=False, timeout=3000)
-        except tlcrun.TLCError as e:
-            rep.machinery_errors.append(str(e)[-800:])
-            return
-        rep.add_tlc("mechanism_model_FoldSys", stats)
-        if stats.get("invariant_violated"):
-            rep.machinery_errors.append(
-                f"mechanism model FoldSys.tla: invariant {stats['invariant_violated']} violated "
-                "(a Tier-M counterexample is not a verdict: see DESIGN.md 5.3)")
-        rep.extra["mechanism_model"] = {"module": "FoldSys.tla", "config": cfg,
-                                        "invariants": ["FoldRefines", "Partition"],
-                                        "distinct_states": stats.get("distinct")}
+        models = [("FoldSys.tla", "FoldSys_exact.cfg" if tier == "quick" else "FoldSys_exact5.cfg",
+                   ["FoldRefines", "Partition"]),
+                  ("OptSys.tla", "OptSys_code.cfg",
+                   ["OptRefines", "Disjoint", "OrderTopological", "Converges"])]
+        rep.extra["mechanism_models"] = []
+        for mod, cfg, invs in models:
+            try:
+                _, stats = tlcrun.run_tlc(mod, cfg, "C02_" + mod[:-4].lower(), coverage=False, timeout=3000)
+            except tlcrun.TLCError as e:
+                rep.machinery_errors.append(str(e)[-800:])
+                continue
+            rep.add_tlc("mechanism_model_" + mod[:-4], stats)
+            if stats.get("invariant_violated"):
+                rep.machinery_errors.append(
+                    f"mechanism model {mod}: invariant {stats['invariant_violated']} violated "
+                    "(a Tier-M counterexample is not a verdict: see DESIGN.md 5.3)")
+            rep.extra["mechanism_models"].append({"module": mod, "config": cfg, "invariants": invs,
+                                                  "distinct_states": stats.get("distinct")})
     return run_hook
 
 
